@@ -12,6 +12,8 @@ calendars holding zoneinfo / pytz / VTIMEZONE-defined zones under both providers
 Sibling multisets: every multiset of <= 3 (thorough 4) children from 7 that pairwise share kind and/or UID but differ in
 content (summary, RECURRENCE-ID, a nested alarm, missing UID), under 3 parent kinds, at top level and nested: equal in every
 order, unequal to every other multiset of the same size.
+Look-alike siblings: two children of one kind with the same properties whose own children are any 1-2 of 4 kinds: every
+permutation of grandchildren and children is equal, moving a grandchild across is not.
 """
 import copy
 import itertools
@@ -448,8 +450,40 @@ def run_siblings(case):
             "outcome": "sib-ok" if not fails else "FAIL"}
 
 
+def run_grand(case):
+    """('grand', root kind, child kind, (g1, g2) of child 1, (g3, g4) of child 2): two same-kind children that look alike
+    (same properties) and differ only in their own children; permuting grandchildren and children must not matter."""
+    _, rk, ck, ga, gb = case
+    fails = []
+
+    def tree(order_a, order_b, swap):
+        kids = [(ck, tuple((g, ()) for g in order_a)), (ck, tuple((g, ()) for g in order_b))]
+        if swap:
+            kids.reverse()
+        return build((rk, tuple(kids)))
+    base = tree(ga, gb, False)
+    trans = 0
+    for oa in set(itertools.permutations(ga)):
+        for ob in set(itertools.permutations(gb)):
+            for swap in (False, True):
+                other = tree(oa, ob, swap)
+                trans += 2
+                r1, r2 = eq(base, other), eq(other, base)
+                if r1 is not True or r2 is not True:
+                    fails.append(fail("grandchild-or-child-order-matters", case + (oa, ob, swap), True, (r1, r2)))
+    # moving one grandchild from one child to the other changes the multiset of children: unequal
+    if ga and (sorted(ga[1:]) != sorted(ga) or True):
+        moved = tree(ga[1:], gb + ga[:1], False)
+        same = sorted([tuple(sorted(ga[1:])), tuple(sorted(gb + ga[:1]))]) == sorted([tuple(sorted(ga)), tuple(sorted(gb))])
+        r1, r2 = eq(base, moved), eq(moved, base)
+        if r1 is not same or r2 is not same:
+            fails.append(fail("moved-grandchild-not-distinguished", case, same, (r1, r2)))
+    return {"state": ("grand", rk, ck, ga, gb), "trans": trans, "nontrivial": True, "fails": fails,
+            "outcome": "grand-ok" if not fails else "FAIL"}
+
+
 def run_case(case):
-    return {"tree": run_tree, "pairs": run_pairs, "zone": run_zone, "sib": run_siblings}[case[0]](case)
+    return {"tree": run_tree, "pairs": run_pairs, "zone": run_zone, "sib": run_siblings, "grand": run_grand}[case[0]](case)
 
 
 def replay(case):
@@ -459,6 +493,8 @@ def replay(case):
         return run_tree(case[:2])
     if case[0] == "sib":
         return run_siblings(case[:4])
+    if case[0] == "grand":
+        return run_grand(case[:5])
     return run_case(case)
 
 
@@ -505,3 +541,14 @@ def run(ctx):
                         yield ("sib", parent_kind, nested, A)
 
     ctx.explore("sibling-multisets", gen_sib, run_case)
+
+    def gen_grand():
+        gk = ("VALARM", "X-COMP", "FOO", "VTODO")
+        pairs = [p for n in (1, 2) for p in itertools.product(gk, repeat=n)]
+        for rk in ("VCALENDAR", "X-COMP"):
+            for ck in ("VEVENT", "FOO"):
+                for ga in pairs:
+                    for gb in pairs:
+                        yield ("grand", rk, ck, ga, gb)
+
+    ctx.explore("look-alike-siblings-with-different-children", gen_grand, run_case)
